@@ -1,0 +1,87 @@
+//go:build verif
+
+package analysis
+
+// Instrumentation for the verification harness in /verif. Compiled only with the build tag "verif";
+// read-only views of unexported state and thin wrappers around unexported functions.
+
+import (
+	"github.com/go-openapi/spec"
+)
+
+func verifRefMap(m map[string]spec.Ref) map[string]string {
+	out := make(map[string]string, len(m))
+	for k, v := range m {
+		out[k] = v.String()
+	}
+
+	return out
+}
+
+// VerifSchemaRef is the exported image of one allSchemas / allOfs entry.
+type VerifSchemaRef struct {
+	Name     string
+	Ref      string
+	TopLevel bool
+	Schema   *spec.Schema
+}
+
+// VerifDump returns a copy of every private index of the analyzed spec.
+func (s *Spec) VerifDump() map[string]interface{} {
+	schemas := func(m map[string]SchemaRef) map[string]VerifSchemaRef {
+		out := make(map[string]VerifSchemaRef, len(m))
+		for k, v := range m {
+			out[k] = VerifSchemaRef{Name: v.Name, Ref: v.Ref.String(), TopLevel: v.TopLevel, Schema: v.Schema}
+		}
+
+		return out
+	}
+	keys := func(m map[string]struct{}) []string {
+		out := make([]string, 0, len(m))
+		for k := range m {
+			out = append(out, k)
+		}
+
+		return out
+	}
+	ops := make(map[string]map[string]string, len(s.operations))
+	for m, byPath := range s.operations {
+		ops[m] = make(map[string]string, len(byPath))
+		for p, op := range byPath {
+			ops[m][p] = op.ID
+		}
+	}
+
+	return map[string]interface{}{
+		"refs": map[string]map[string]string{
+			"schema":          verifRefMap(s.references.schemas),
+			"response":        verifRefMap(s.references.responses),
+			"parameter":       verifRefMap(s.references.parameters),
+			"pathItem":        verifRefMap(s.references.pathItems),
+			"items:header":    verifRefMap(s.references.headerItems),
+			"items:parameter": verifRefMap(s.references.parameterItems),
+		},
+		"itemsRefs": verifRefMap(s.references.items),
+		"allRefs":   verifRefMap(s.references.allRefs),
+		"patterns": map[string]map[string]string{
+			"parameter": s.patterns.parameters,
+			"header":    s.patterns.headers,
+			"items":     s.patterns.items,
+			"schema":    s.patterns.schemas,
+		},
+		"allPatterns": s.patterns.allPatterns,
+		"enums": map[string]map[string][]interface{}{
+			"parameter": s.enums.parameters,
+			"header":    s.enums.headers,
+			"items":     s.enums.items,
+			"schema":    s.enums.schemas,
+		},
+		"allEnums": s.enums.allEnums,
+		"schemas":  schemas(s.allSchemas),
+		"allOfs":   schemas(s.allOfs),
+		"ops":      ops,
+		"consumes": keys(s.consumes),
+		"produces": keys(s.produces),
+		"auth":     keys(s.authSchemes),
+	}
+}
